@@ -92,21 +92,21 @@ EXTRA = {
  "C01": "Added: two prefix-named directories named without trailing slash, a file from each. Added: directories and contents below the source root as sources; part cli = the gokr-rsync command in its own process with its default landlock sandbox for 8 ways of naming the source x {-r,-a,-rt,-d} x {local, push, pull over loopback}.",
  "C02": "Added: receiver-large (19 streams at the scale other senders produce: single literal tokens up to 3 MiB+1, 3000-token streams, 131072-byte blocks in reverse order with the short block first) and, in sender-large, block lengths above the sender's 256 KiB read chunk (262145, 300000; thorough 262144 and 2^20) with a 600001-byte literal op.",
  "C03": "Added: part length (honest streams whose length differs from the announced one). Added: header-echo variants (all-zero header as tridge echoes it, strong length 0/2/15) and the demand that a kept file is not re-stamped with the new version's time; flips that declare a literal of >= 16 MiB are skipped and counted.",
- "C04": "Added: files whose leading full blocks are unchanged (appended data; shorter different end), a directory created by the transfer; after a connection break every order of the first failure is explored; quick freezes every 11 bytes (thorough 7 and 1).",
- "C05": "Added: 8 vectors whose hostile entry lies several levels below the escaping component with unlisted parents.",
+ "C04": "Added: a symlink whose place is taken by a non-empty directory (no temporary symlink may remain); the inotify part also runs with --delete. Added: files whose leading full blocks are unchanged (appended data; shorter different end), a directory created by the transfer; after a connection break every order of the first failure is explored; quick freezes every 11 bytes (thorough 7 and 1).",
+ "C05": "Added: names with a NUL byte after a symlink's name, '/.' and '//' tails; a sibling whose path starts with the module's path as upload sub-directory. Added: 8 vectors whose hostile entry lies several levels below the escaping component with unlisted parents.",
  "C07": "Added: part config (module tables from configuration files through every loader). Added: part histories = one long-lived Server with a read-only module sharing its directory with a writable one; uploads to read-only modules after 0/1/2 rounds of legitimate uploads.",
  "C10": "Added: extraneous read-only directories, fifo, mode-000 file. Added: names sorting between a directory and its contents next to missing / wrong-type directories, deeper levels below them.",
  "C20": "Added: daemon-side option tokens (--gokr.modulemap, --gokr.config) in the exec grammar; every greeted session is asked for its module list and for a module it must not have; ordered pairs of authentication attempts (key offered without proof, then a signed key) on one connection.",
  "C17": "Added: shape listing-64bit (sizes and statistics in the 64-bit encoding, total size compared).",
  "C11": "Added: prior destination states for devices/specials, device nodes with equal numbers that are not neighbours, empty prior files.",
  "C08": "Added: part client-cli (the command in its own process against an interactive scripted daemon; listing without destination). Added: every pair of deviations inside one checksum header; complete frames of 13 lengths (0..2^24-1) x 8 tags x 4 positions against the client; part vanishing (client drops the connection after N bytes of a 24 MiB download, canonical pull follows at once); shape upload-delta (echoed checksum header and block references against a copy the module holds), module reset before every hostile session.",
- "C09": "Added: anchored and path exclude rules for both source forms. Added: names that sort between a directory and its contents (d-old, d.bak/), identity (inode) of listed up-to-date entries, directory-only rules (b/, z/), non-recursive -d transfers, and sources named without trailing slash with siblings next to the transferred directory.",
+ "C09": "Added: the vanished source argument in first position. Added: anchored and path exclude rules for both source forms. Added: names that sort between a directory and its contents (d-old, d.bak/), identity (inode) of listed up-to-date entries, directory-only rules (b/, z/), non-recursive -d transfers, and sources named without trailing slash with siblings next to the transferred directory.",
  "C12": "Added: part repeat = whole sessions run twice over boundary mtimes in 5 arrangements x 6 option sets (second run must leave every entry the same file system object), the -c rule with the real sender's list checksums for sizes 0..1 MiB, sparse up-to-date files of 2^31-1..5 GiB; all syncs of the histories part run in one directory (long-lived server).",
  "C13": "Added: part shapes = rule lists over trailing-slash, leading-slash and path rules: refused or exactly the denoted selection.",
  "C14": "Added: option sets with -d instead of -r and with neither.",
  "C15": "Added: numbering with names that sort before '.' next to the '.' entry, and with duplicate names in both directions.",
  "C16": "Added: part long-runs = inserted/replaced/prepended runs of 256 KiB-1 .. 768 KiB+2B+1 around the sender's flush threshold, one or two per file; deletions of 1/2, 1/3, 3/5, 9/10 of the file with the real generator; part multi = several files through the delta path of one session.",
- "C18": "Added: part aborted = a 24 MiB download dropped by the peer mid-file followed at once by 4 concurrent ordinary downloads, under the race detector.",
+ "C18": "Added: option sets (deleting push with 40 rules, -a, -rtc, refused rule list), a source whose files vanish after the listing. Added: part aborted = a 24 MiB download dropped by the peer mid-file followed at once by 4 concurrent ordinary downloads, under the race detector.",
  "C19": "Added: part neighbours = three prefix-named modules with their own rule lists on one server, asked in rotating order; nested networks sharing their network address.",
 }
 
